@@ -47,7 +47,7 @@ CFG = {
                 nontrivial=lambda p, t: "gmk" in p and "gemit" in p),
 }
 
-COUNTS = {"quick": 600, "thorough": 20000}
+COUNTS = {"quick": 2400, "thorough": 40000}
 SIZES = {"quick": 24, "thorough": 48}
 
 
